@@ -3,6 +3,7 @@ package twins
 // In-package overlay (never written to /repo): Twins generator enumeration and verdict checks.
 
 import (
+	"sync"
 	"bytes"
 	"fmt"
 	"io"
@@ -344,6 +345,64 @@ func verifOneSetting(p vbase.Params, r *vbase.Result, st Settings, bound int64) 
 	if err != nil && err != io.EOF {
 		r.Violate("json-error", fmt.Sprintf("%s: JSON round trip failed: %v", tag, err), rep)
 	}
+	// several goroutines writing to one JSONWriter (what a run with a worker pool does): whatever the interleaving, the
+	// stream must read back as exactly the scenarios written
+	if len(out) >= 4 {
+		trials := 40
+		for trial := 0; trial < trials; trial++ {
+			var cb bytes.Buffer
+			cw, cerr := ToJSON(st, &lockedWriter{w: &cb})
+			if cerr != nil {
+				break
+			}
+			k := min(len(out), 4+trial%5)
+			start := make(chan struct{})
+			var wg sync.WaitGroup
+			errs := make([]error, k)
+			for g := 0; g < k; g++ {
+				wg.Add(1)
+				go func(g int) {
+					defer wg.Done()
+					<-start
+					errs[g] = cw.WriteScenario(out[g])
+				}(g)
+			}
+			close(start)
+			wg.Wait()
+			if e := cw.Close(); e != nil {
+				r.Violate("json-concurrent", fmt.Sprintf("%s: closing a JSON stream written by %d goroutines: %v", tag, k, e), rep)
+				break
+			}
+			src, e := FromJSON(bytes.NewReader(cb.Bytes()))
+			if e != nil {
+				r.Violate("json-concurrent", fmt.Sprintf("%s: a JSON stream written by %d goroutines does not read back: %v (%.120q)", tag, k, e, cb.String()), rep)
+				break
+			}
+			want := map[string]int{}
+			for g := 0; g < k; g++ {
+				want[canon(out[g])]++
+			}
+			bad := false
+			for g := 0; g < k; g++ {
+				sc, e, pn := safeNext(src)
+				if e != nil || pn != nil {
+					bad = true
+					break
+				}
+				want[canon(sc)]--
+			}
+			for _, v := range want {
+				if v != 0 {
+					bad = true
+				}
+			}
+			if bad {
+				r.Violate("json-concurrent", fmt.Sprintf("%s: a JSON stream written by %d goroutines does not hold exactly the scenarios written", tag, k), rep)
+				break
+			}
+			r.Obs("json_concurrent_streams", 1)
+		}
+	}
 	if nt && len(out) > 0 && r.WantSample() {
 		r.Sample(map[string]any{"settings": tag, "announced": announced, "yielded": len(out), "first": canon(out[0]), "last": canon(out[len(out)-1])})
 	}
@@ -546,4 +605,16 @@ func verifExecute(p vbase.Params, r *vbase.Result) {
 			r.Sample(map[string]any{"ruleset": name, "scenario": canon(s), "safe": res.Safe, "commits": res.Commits})
 		}
 	}
+}
+
+// lockedWriter serializes Write calls (a file does that too); the JSONWriter decides what goes into each call.
+type lockedWriter struct {
+	mu sync.Mutex
+	w  io.Writer
+}
+
+func (l *lockedWriter) Write(p []byte) (int, error) {
+	l.mu.Lock()
+	defer l.mu.Unlock()
+	return l.w.Write(p)
 }
